@@ -39,9 +39,19 @@ def C06(tier, seed):
 
 
 def C11(tier, seed):
+    from harness import step, step_replay
+    from .core import Run
+
     seg = [("paint", 3, G2_, {})] + ([] if tier == "quick" else [("paint", 3, G3_, {"iou": True}),
                                                                  ("UserAddNode", 3, G2_, {})])
-    return _step("C11", tier, seed, R.USER, seg=seg)
+    n = 3 if tier == "quick" else 4
+    extra = [Run(f"step:UserAddNode:N={n}:per_axis_position", step.harness,
+                 dict(N=n, action="UserAddNode", props=["C11"], multi_pos=True), step_replay.replay, (),
+                 f"{n} node slots, position stored per axis (pos_attr=['y','x']); attribute shapes incl. a partial "
+                 f"position")]
+    runs = extra + R.step_runs("C11", tier, R.USER) + R.seg_runs("C11", tier, seg)
+    return run_property("C11", tier, runs, explanation=R.EXPL, assumptions=R.STEP_ASSUME + R.SEG_ASSUME, seed=seed,
+                        stubs=R.SEG_STUBS)
 
 
 def C20(tier, seed):
@@ -183,7 +193,8 @@ def C08(tier, seed):
 def C09(tier, seed):
     a = {"iou": True}
     if tier == "quick":
-        specs = [("paint", 2, G3, a), ("UserAddEdge", 3, G3, a), ("UserDeleteNode", 3, G3, a),
+        # three slots on two frames: a repainted node can be a dividing parent (two edges into one frame)
+        specs = [("paint", 3, G2, a), ("UserAddEdge", 3, G3, a), ("UserDeleteNode", 3, G3, a),
                  ("UserSwapPredecessors", 3, G3, a)]
         en = [("iou", 3, G3, {})]
     else:
